@@ -57,7 +57,8 @@ func runBrokenStream(b *framingBehaviour, kinds []string, seed int64) ([]map[str
 	conn := newScriptConn(hs)
 	connActor, err := remoting.VerifNewAcceptedConnection(conn, "10.1.1.1:7000", nil, sys)
 	if err != nil {
-		return nil, err
+		// the handshake bytes are valid: a refusal is the receiving side's answer, judged by the monitor
+		return []map[string]any{{"e": "Accept", "v": 0, "k": err.Error()}, {"e": "End", "k": "faulty"}}, nil
 	}
 	if _, err := sys.ActorOf(connActor, vivid.WithActorName("conn")); err != nil {
 		return nil, err
